@@ -76,6 +76,20 @@ Example former_value_error_schedule :
   = [solo_run W s0 decode_x; solo_run W s0 decode_x].
 Proof. vm_compute. reflexivity. Qed.
 
+(* ---- build_recursive: safe when no class below its argument is unbuildable ... ---- *)
+Definition recPA : script := op_script W (OCall (CBuildRecursive 2 None)).
+Example conc_guard_rec : conc_guard W s0 [recPA; serialize W vPA; recPA; parsePA] = true.
+Proof. vm_compute. reflexivity. Qed.
+
+(* ... and not otherwise (C14's defect d, concurrently): Dep has a field of the unbuildable class
+   Broken; alone build_recursive(Dep) raises XmlContextError; when another thread has cached Dep in
+   the meantime it returns None *)
+Lemma rec_race :
+  nth_error (conc_run W s0 [rec_dep; serialize W vDep] [1; 1; 1]%nat) 0 <> Some (solo_run W s0 rec_dep)
+  /\ conc_guard W s0 [rec_dep; serialize W vDep] = false
+  /\ forallb (ref_rec_closed W (eff_index W s0)) [rec_dep; serialize W vDep] = false.
+Proof. vm_compute. split; [discriminate|split; reflexivity]. Qed.
+
 (* ---- the cache-key defect, concurrently: both threads miss Leaf, both store, the one
    that stored first reads the other's metadata back ---- *)
 Definition ns_threads : list script := [serialize W vPA; serialize W vPB].
